@@ -209,6 +209,12 @@ func (w *Walker) visit(st *WState, from *ssa.BasicBlock, visited map[string]bool
 	visited[k] = true
 	st.Trail = append(st.Trail, b.Index)
 	for _, in := range b.Instrs {
+		// a value (re)defined here is a new value on this iteration: facts learned
+		// about the previous iteration's value no longer apply
+		if dv, isVal := in.(ssa.Value); isVal {
+			delete(st.nilF, dv)
+			delete(st.boolF, dv)
+		}
 		switch x := in.(type) {
 		case *ssa.Store:
 			if a, ok := x.Addr.(*ssa.Alloc); ok && (nilable(x.Val.Type()) || isBool(x.Val.Type())) {
